@@ -127,6 +127,11 @@ pub struct CallRec {
 }
 
 pub fn run_history<K: Kit>(kit: &K, h: &History, keep_events: bool, budget: u64) -> Result<(Drv<K>, Vec<CallRec>), String> {
+    run_history_opts(kit, h, keep_events, budget, None)
+}
+
+/// `slow`: real-time latency of the validity callback (see `Log::slow_valid`).
+pub fn run_history_opts<K: Kit>(kit: &K, h: &History, keep_events: bool, budget: u64, slow: Option<(u64, u64)>) -> Result<(Drv<K>, Vec<CallRec>), String> {
     crate::watch::set_case(h.to_json());
     oxmpl::verif::arm(0);
     let build_secs = h.prm_build_override.unwrap_or((h.prm_samples as f64 - 0.5) * 1e-3);
@@ -137,6 +142,7 @@ pub fn run_history<K: Kit>(kit: &K, h: &History, keep_events: bool, budget: u64)
         l.budget = budget;
         l.tick_sample = crate::drv::MS;
         l.tick_valid = 0;
+        l.slow_valid = slow;
     }
     let mode = || match (&h.script, h.uniform_fail_at) {
         (Some(s), _) if !s.is_empty() => SampleMode::Scripted(s.clone()),
